@@ -65,6 +65,8 @@ def observe(pd, req, fresh_model=True):
     elif q == "kG0":
         p.Nxx, p.Nyy, p.Nxy = (float(fr(x)) for x in req["N"])
         M = p.calc_kG0(silent=True, **kw)
+    elif q in ("fint", "kT", "kGc"):
+        return observe_nl(p, pd, req, kw)
     elif q in ("uvw", "strain", "stress"):
         return observe_field(p, pd, req)
     elif q in ("fext", "static"):
@@ -138,6 +140,41 @@ def observe_field(p, pd, req):
     return obs, bool(ok)
 
 
+def gauss_orders(pd, req):
+    """numbers of Gauss points that integrate the quartic integrand exactly: an n-point rule is exact to degree
+    2n-1 and the integrand has degree <= 4*max(3, m-1) in xi"""
+    nx = 2 * max(3, pd["m"] - 1) + 1 + req.get("extra", [0, 0])[0]
+    ny = 2 * max(3, pd["n"] - 1) + 1 + req.get("extra", [0, 0])[1]
+    return nx, ny
+
+
+def observe_nl(p, pd, req, kw):
+    q = req["q"]
+    c = np.array([float(fr(v)) for v in req["c"]])
+    c0 = c.copy()
+    nx, ny = gauss_orders(pd, req)
+    p.calc_k0(silent=True)                # documented order: derives the laminate matrix F
+    F = np.array(p.F, dtype=float)
+    F0 = F.copy()
+    Fn = np.ascontiguousarray(np.tile(F, (nx, ny, 1, 1))) if req.get("table") else None
+    k2 = dict(kw)
+    if q == "fint":
+        if k2:
+            k2 = dict(size=kw["size"], col0=kw["col0"])
+        f = p.calc_fint(c, nx=nx, ny=ny, Fnxny=Fn, silent=True, **k2)
+        out = [[dyadic(v)] for v in np.asarray(f, dtype=float).ravel()]
+    elif q == "kT":
+        M = p.calc_kT(c=c, nx=nx, ny=ny, Fnxny=Fn, silent=True, **k2)
+        out = [[dyadic(v) for v in row] for row in M.toarray()]
+    else:
+        M = p.calc_kG0(c=c, nx=nx, ny=ny, Fnxny=Fn, NLgeom=bool(req["NL"]), silent=True, **k2)
+        out = [[dyadic(v) for v in row] for row in M.toarray()]
+    ok = np.array_equal(c, c0) and np.array_equal(np.array(p.F, dtype=float), F0)     # caller inputs untouched
+    if Fn is not None:
+        ok = ok and np.array_equal(Fn, np.tile(F0, (nx, ny, 1, 1)))
+    return out, bool(ok)
+
+
 def observe_load(p, pd, req, kw):
     q = req["q"]
     flt = lambda fs: [[float(fr(v)) for v in f] for f in fs]
@@ -160,7 +197,7 @@ def observe_load(p, pd, req, kw):
 
 def jreq(r):
     out = dict(q=r["q"], size=r.get("size", 0), row0=r.get("row0", 0), col0=r.get("col0", 0))
-    for k in ("N", "flow", "beta", "gamma", "aeromu", "c", "pts", "NL", "forces", "forcesInc", "inc", "cores", "num"):
+    for k in ("N", "flow", "beta", "gamma", "aeromu", "c", "pts", "NL", "forces", "forcesInc", "inc", "cores", "num", "extra", "table"):
         if k in r:
             out[k] = r[k]
     return out
@@ -247,6 +284,13 @@ def random_req(rng, pd, q):
         r["cores"] = rng.choice([1, 2, 3, 4, 6, 7, 16])
         if q != "uvw":
             r["NL"] = rng.random() < 0.5
+    if q in ("fint", "kT", "kGc"):
+        amp = rng.choice([1, 1, 4, 32])
+        r["c"] = [rat(Fraction(rng.randint(-8, 8), 16 * amp)) for _ in range(size)]
+        r["extra"] = [rng.choice([0, 0, 1, 3, 9]), rng.choice([0, 0, 2, 5])]
+        r["table"] = rng.random() < 0.4
+        if q == "kGc":
+            r["NL"] = rng.random() < 0.5
     if q in ("fext", "static"):
         def forces(n):
             return [[rat(Fraction(rng.randint(0, 8), 8) * a), rat(Fraction(rng.randint(0, 8), 8) * b)] +
@@ -280,6 +324,8 @@ INVS = {
     "kA": ["ScaleDominatesOut", "OnlyW", "AeroStructure"],
     "cA": ["SymmetricOut", "OnlyW"],
     "uvw": [], "strain": [], "stress": ["StrainEnergyNonNegative"], "fext": ["VirtualWork"], "static": [],
+    "fint": ["AtRest", "ForceIsEnergyGradient"], "kT": ["AtRest", "TangentSymmetric", "TangentIsJacobian", "SymmetricOut"],
+    "kGc": ["SymmetricOut", "OnlyW", "UniformStressReproducesConstant"],
 }
 
 
@@ -310,7 +356,7 @@ def run_prop(prop, qs, tier, seed, build, nrand_quick=40, nrand_thorough=600, wh
     models = ["plate", "plate", "cpanel", "cpanel", "plate_w", "kpanel"]
     if set(qs) & {"kA", "cA"}:
         models = ["plate", "cpanel", "plate_w"]
-    if set(qs) & {"uvw", "strain", "stress", "fext", "static"}:
+    if set(qs) & {"uvw", "strain", "stress", "fext", "static", "fint", "kT", "kGc"}:
         models = ["plate", "cpanel"]
     nrand = nrand_quick if tier == "quick" else nrand_thorough
     rnd = []
@@ -320,7 +366,11 @@ def run_prop(prop, qs, tier, seed, build, nrand_quick=40, nrand_thorough=600, wh
         r = random_req(rng, pd, q)
         if q == "kA":
             restrain_flow_edges(pd, r["flow"])
-        if q in ("kA", "cA", "uvw", "strain", "stress", "fext", "static"):
+        if q in ("fint", "kT", "kGc"):
+            pd["m"], pd["n"] = min(pd["m"], 3), min(pd["n"], 3)
+            r = random_req(rng, pd, q)
+            pd["Ncte"] = [rat(0)] * 3
+        if q in ("kA", "cA", "uvw", "strain", "stress", "fext", "static", "fint", "kT", "kGc"):
             # these quantify over whole panels (no sub-interval variant of the kernels)
             pd["y1"], pd["y2"] = rat(0), pd["b"]
         rnd.append((pd, r))
@@ -332,6 +382,8 @@ def run_prop(prop, qs, tier, seed, build, nrand_quick=40, nrand_thorough=600, wh
             rep.violation("%s raised %s: %s" % (r["q"], type(ex).__name__, str(ex)[:200]), dict(pd=pd, req=r))
             continue
         g = [dict(ev="define", id=eid, pd=pd), dict(ev="eval", id=eid + 1, req=r, obs=obs, flags_ok=ok)]
+        if r["q"] in ("fint", "kT", "kGc"):
+            g[1]["tol"] = 34          # Gauss-quadrature sums of the quartic integrand
         meta[eid + 1] = (pd, r)
         eid += 2
         groups.append(g)
